@@ -821,6 +821,16 @@ pub fn adversaries(thorough: bool) -> Vec<Adversary> {
 	for (n, l) in [(127usize, 'J'), (128, 'J'), (254, 'I'), (255, 'I'), (256, 'I'), (300, 'I'), (1000, 'D')] {
 		adv(&mut v, format!("invokeinterface-argument-slots/{n}x{l}"), c, move || invokeinterface_args(&format!("({})V", l.to_string().repeat(n))));
 	}
+	// a two-slot argument straddling the 255-slot limit, in every composition that reaches the limit differently
+	for slots in [253usize, 254, 255, 256, 257] {
+		for w in ['J', 'D'] {
+			adv(&mut v, format!("invokeinterface-argument-slots/{slots}-ints-then-{w}"), c, move || invokeinterface_args(&format!("({}{w})V", "I".repeat(slots - 2))));
+			adv(&mut v, format!("invokeinterface-argument-slots/{slots}-{w}-then-ints"), c, move || invokeinterface_args(&format!("({w}{})V", "I".repeat(slots - 2))));
+			adv(&mut v, format!("invokeinterface-argument-slots/{slots}-objects-then-{w}"), c, move || invokeinterface_args(&format!("({}{w})V", "Lp/T;".repeat(slots - 2))));
+			adv(&mut v, format!("invokeinterface-argument-slots/{slots}-arrays-then-{w}"), c, move || invokeinterface_args(&format!("({}{w})V", "[D".repeat(slots - 2))));
+			adv(&mut v, format!("invokeinterface-argument-slots/{slots}-int-then-{w}s"), c, move || invokeinterface_args(&format!("({}{})V", "I".repeat(slots % 2), w.to_string().repeat(slots / 2))));
+		}
+	}
 	adv(&mut v, "invokeinterface-argument-slots/255-arrays", c, || invokeinterface_args(&format!("({})V", "[[I".repeat(255))));
 	adv(&mut v, "invokeinterface-argument-slots/255-objects", c, || invokeinterface_args(&format!("({})V", "Lp/T;".repeat(255))));
 	// exception table corners
